@@ -96,9 +96,39 @@ func subsetsOfSize(xs []int, k int) [][]int {
 	return out
 }
 
+// maxSplits bounds the number of tie alternatives that are enumerated; beyond it the split is chosen
+// from the observed start order (see topSplits).
+const maxSplits = 64
+
+func binom(n, k int) int {
+	if k < 0 || k > n {
+		return 0
+	}
+	r := 1
+	for i := 1; i <= k; i++ {
+		r = r * (n - k + i) / i
+		if r > 1<<30 {
+			return 1 << 30
+		}
+	}
+	return r
+}
+
 // topSplits enumerates every tie-consistent way to take the `n` highest and
 // then the `m` next-highest rules of ids (sorted by non-increasing salience).
-func topSplits(rs RuleSet, ids []int, n, m int) [][2][]int {
+// With many tied rules the number of ways explodes (C(40,24) for forty rules of one salience); then one
+// split is returned instead: among tied rules those that were observed to start earliest are preferred
+// (order = rule ids in order of their first observed start).  Because stage one ends before stage two
+// begins, an observation that is admissible under some split is admissible under this one; an
+// observation admissible under none is judged against it.
+func topSplits(rs RuleSet, ids []int, n, m int, order []int) [][2][]int {
+	rank := map[int]int{}
+	for i, id := range order {
+		if _, ok := rank[id]; !ok {
+			rank[id] = i
+		}
+	}
+	guided := false
 	// choose stage one: all rules strictly above the salience at position n-1, plus a subset of the tie group
 	pick := func(pool []int, k int) [][2][]int { // returns (chosen, rest) alternatives
 		if k > len(pool) {
@@ -119,8 +149,24 @@ func topSplits(rs RuleSet, ids []int, n, m int) [][2][]int {
 				below = append(below, id)
 			}
 		}
+		var subs [][]int
+		if guided || binom(len(tie), k-len(above)) > maxSplits {
+			guided = true
+			pref := append([]int(nil), tie...)
+			sort.SliceStable(pref, func(i, j int) bool {
+				ri, oki := rank[pref[i]]
+				rj, okj := rank[pref[j]]
+				if oki != okj {
+					return oki
+				}
+				return oki && ri < rj
+			})
+			subs = [][]int{pref[:k-len(above)]}
+		} else {
+			subs = subsetsOfSize(tie, k-len(above))
+		}
 		var alts [][2][]int
-		for _, sub := range subsetsOfSize(tie, k-len(above)) {
+		for _, sub := range subs {
 			chosen := append(append([]int(nil), above...), sub...)
 			inSub := map[int]bool{}
 			for _, id := range sub {
@@ -141,15 +187,32 @@ func topSplits(rs RuleSet, ids []int, n, m int) [][2][]int {
 	for _, a := range pick(ids, n) {
 		for _, b := range pick(a[1], m) {
 			out = append(out, [2][]int{a[0], b[0]})
+			if len(out) >= maxSplits*maxSplits {
+				return out
+			}
 		}
 	}
 	return out
 }
 
+// SpecsForView is SpecsFor with the observed start order of the call's executions as a hint for
+// tie-breaking where the alternatives are too many to enumerate.
+func SpecsForView(v *CallView, rs RuleSet, em int) []Spec {
+	xs := append([]*Exec(nil), v.Execs...)
+	sort.SliceStable(xs, func(i, j int) bool { return xs[i].First < xs[j].First })
+	order := make([]int, 0, len(xs))
+	for _, x := range xs {
+		order = append(order, x.Rule)
+	}
+	return specsFor(v.C, rs, em, order)
+}
+
 // SpecsFor returns the admissible specs of a call (several when ties make the
 // choice of "highest"/"lowest"/window ambiguous).  em is the pool's execution
 // model for the *SpecifiedEM methods.
-func SpecsFor(c *Call, rs RuleSet, em int) []Spec {
+func SpecsFor(c *Call, rs RuleSet, em int) []Spec { return specsFor(c, rs, em, nil) }
+
+func specsFor(c *Call, rs RuleSet, em int, order []int) []Spec {
 	all := rs.sortedIDs()
 	if len(all) == 0 {
 		return []Spec{{NoJudge: true, Why: "empty rule set"}}
@@ -194,7 +257,7 @@ func SpecsFor(c *Call, rs RuleSet, em int) []Spec {
 	}
 	nm := func(ids []int, m1, m2 int) []Spec {
 		var out []Spec
-		for _, sp := range topSplits(rs, ids, c.N, c.M) {
+		for _, sp := range topSplits(rs, ids, c.N, c.M, order) {
 			out = append(out, Spec{Stages: []Stage{{Rules: sp[0], Mode: m1, Cont: c.B}, {Rules: sp[1], Mode: m2, Cont: c.B}}, StopBetween: !c.B})
 		}
 		return out
@@ -278,6 +341,8 @@ func SpecsFor(c *Call, rs RuleSet, em int) []Spec {
 	return []Spec{{NoJudge: true, Why: "unknown method"}}
 }
 
+const maxViolationsPerCall = 40
+
 func hasDup(names []string) bool {
 	seen := map[string]bool{}
 	for _, n := range names {
@@ -297,16 +362,25 @@ func CheckSpec(v *CallView, sp *Spec, rs RuleSet) []Violation {
 	add := func(clause, detail, msg string) {
 		out = append(out, Violation{Clause: clause, Method: mname, Detail: detail, Msg: msg, Call: v.C.Idx})
 	}
+	// messages are formatted only for the first violations of a call: a run gone wild (thousands of stray
+	// executions) must not cost minutes of formatting
+	addf := func(clause, detail, format string, args ...interface{}) {
+		if len(out) >= maxViolationsPerCall {
+			return
+		}
+		add(clause, detail, fmt.Sprintf(format, args...))
+	}
+	_ = add
 	bs := ""
 	if HasB(v.C.Method) {
 		bs = fmt.Sprintf("b=%v", v.C.B)
 	}
 	if sp.MustErr {
 		if len(v.Execs) > 0 {
-			add("ran-despite-invalid-selection", bs, fmt.Sprintf("%s: the call must fail without running anything (%s) but ran %v", v.C, sp.Why, v.Execs))
+			addf("ran-despite-invalid-selection", bs, "%s: the call must fail without running anything (%s) but ran %v", v.C, sp.Why, v.Execs)
 		}
 		if v.CR >= 0 && v.Flags&1 == 0 {
-			add("no-error-for-invalid-selection", bs, fmt.Sprintf("%s: must return an error (%s)", v.C, sp.Why))
+			addf("no-error-for-invalid-selection", bs, "%s: must return an error (%s)", v.C, sp.Why)
 		}
 		return out
 	}
@@ -322,12 +396,12 @@ func CheckSpec(v *CallView, sp *Spec, rs RuleSet) []Violation {
 	for _, x := range v.Execs {
 		sl, ok := slots[x.Rule]
 		if !ok {
-			add("unscheduled-rule-ran", bs, fmt.Sprintf("%s: rule %d is not part of the call but ran", v.C, x.Rule))
+			addf("unscheduled-rule-ran", bs, "%s: rule %d is not part of the call but ran", v.C, x.Rule)
 			continue
 		}
 		k := used[x.Rule]
 		if k >= len(sl) {
-			add("ran-more-than-once", bs, fmt.Sprintf("%s: rule %d ran %d times, scheduled %d", v.C, x.Rule, k+1, len(sl)))
+			addf("ran-more-than-once", bs, "%s: rule %d ran %d times, scheduled %d", v.C, x.Rule, k+1, len(sl))
 			continue
 		}
 		used[x.Rule] = k + 1
@@ -341,14 +415,14 @@ func CheckSpec(v *CallView, sp *Spec, rs RuleSet) []Violation {
 		xs := per[si]
 		if blocked {
 			for _, x := range xs {
-				add("ran-after-stop", bs, fmt.Sprintf("%s: %v ran although %s", v.C, x, why))
+				addf("ran-after-stop", bs, "%s: %v ran although %s", v.C, x, why)
 			}
 			continue
 		}
 		// barrier with the previous stage that ran
 		for _, x := range xs {
 			if prevLast >= 0 && x.First < prevLast {
-				add("barrier", fmt.Sprintf("stage%d", si), fmt.Sprintf("%s: %v of stage %d started before stage %d had finished (its last event is #%d)", v.C, x, si, prevStage, prevLast))
+				addf("barrier", fmt.Sprintf("stage%d", si), "%s: %v of stage %d started before stage %d had finished (its last event is #%d)", v.C, x, si, prevStage, prevLast)
 			}
 		}
 		switch st.Mode {
@@ -363,7 +437,7 @@ func CheckSpec(v *CallView, sp *Spec, rs RuleSet) []Violation {
 			}
 			for id, w := range want {
 				if cnt[id] < w {
-					add("scheduled-rule-did-not-run", bs, fmt.Sprintf("%s: rule %d of stage %d ran %d times, scheduled %d", v.C, id, si, cnt[id], w))
+					addf("scheduled-rule-did-not-run", bs, "%s: rule %d of stage %d ran %d times, scheduled %d", v.C, id, si, cnt[id], w)
 				}
 			}
 			for _, x := range xs {
@@ -380,14 +454,14 @@ func CheckSpec(v *CallView, sp *Spec, rs RuleSet) []Violation {
 				if i > 0 {
 					p := xs[i-1]
 					if x.First < p.Last {
-						add("overlap-in-sorted-stage", bs, fmt.Sprintf("%s: %v started before %v had finished", v.C, x, p))
+						addf("overlap-in-sorted-stage", bs, "%s: %v started before %v had finished", v.C, x, p)
 					}
 					if st.Mode == ModeOrdered && rs[x.Rule] > rs[p.Rule] {
-						add("salience-order", bs, fmt.Sprintf("%s: rule %d (salience %d) ran after rule %d (salience %d)", v.C, x.Rule, rs[x.Rule], p.Rule, rs[p.Rule]))
+						addf("salience-order", bs, "%s: rule %d (salience %d) ran after rule %d (salience %d)", v.C, x.Rule, rs[x.Rule], p.Rule, rs[p.Rule])
 					}
 				}
 				if stopAt >= 0 {
-					add("ran-after-stop", bs, fmt.Sprintf("%s: %v ran although %s", v.C, x, why))
+					addf("ran-after-stop", bs, "%s: %v ran although %s", v.C, x, why)
 					continue
 				}
 				if x.Fired {
@@ -414,7 +488,7 @@ func CheckSpec(v *CallView, sp *Spec, rs RuleSet) []Violation {
 				// exact order: the executed rules must be a prefix of the list (or all of it)
 				for i, x := range xs {
 					if i < len(st.Rules) && x.Rule != st.Rules[i] {
-						add("given-order", bs, fmt.Sprintf("%s: position %d ran rule %d, the caller listed %d", v.C, i, x.Rule, st.Rules[i]))
+						addf("given-order", bs, "%s: position %d ran rule %d, the caller listed %d", v.C, i, x.Rule, st.Rules[i])
 						break
 					}
 				}
@@ -432,7 +506,7 @@ func CheckSpec(v *CallView, sp *Spec, rs RuleSet) []Violation {
 						miss = append(miss, strconv.Itoa(id))
 					}
 				}
-				add("scheduled-rule-did-not-run", bs, fmt.Sprintf("%s: stage %d: rules [%s] did not run although nothing stopped the stage", v.C, si, strings.Join(miss, ",")))
+				addf("scheduled-rule-did-not-run", bs, "%s: stage %d: rules [%s] did not run although nothing stopped the stage", v.C, si, strings.Join(miss, ","))
 			}
 			if stopAt >= 0 && st.Mode == ModeOrdered {
 				// everything that did not run must not outrank what ran (tie-tolerant)
@@ -447,7 +521,7 @@ func CheckSpec(v *CallView, sp *Spec, rs RuleSet) []Violation {
 						continue
 					}
 					if rs[id] > minRan {
-						add("salience-order", bs, fmt.Sprintf("%s: rule %d (salience %d) was skipped although it outranks executed rule %d", v.C, id, rs[id], xs[stopAt].Rule))
+						addf("salience-order", bs, "%s: rule %d (salience %d) was skipped although it outranks executed rule %d", v.C, id, rs[id], xs[stopAt].Rule)
 					}
 				}
 			}
@@ -465,7 +539,7 @@ func CheckSpec(v *CallView, sp *Spec, rs RuleSet) []Violation {
 	if v.CR >= 0 && v.Flags&2 == 0 {
 		gotErr := v.Flags&1 == 1
 		if anyFired && !gotErr {
-			add("failure-not-reported", bs, fmt.Sprintf("%s: a rule failed but the call returned nil", v.C))
+			addf("failure-not-reported", bs, "%s: a rule failed but the call returned nil", v.C)
 		}
 		if !anyFired && gotErr {
 			// "an error if and only if a rule failed" is stated for the sort model (C04); elsewhere only
@@ -474,7 +548,7 @@ func CheckSpec(v *CallView, sp *Spec, rs RuleSet) []Violation {
 			if !(len(sp.Stages) == 1 && sp.Stages[0].Mode != ModeUnordered) {
 				clause = "error-without-failure-unspecified-model"
 			}
-			add(clause, bs, fmt.Sprintf("%s: no rule failed but the call returned %v", v.C, errStr(v.C)))
+			addf(clause, bs, "%s: no rule failed but the call returned %v", v.C, errStr(v.C))
 		}
 	}
 	return out
